@@ -2,8 +2,10 @@
 // case:  T s <graph>   one tree, double weights, constructed directly
 //        TV s <graph>  the tree of source s taken out of the std::vector<SPTree> that HortonCyclesBuilder's loop builds
 //        I s <graph>   one tree, int weights
+//        L s <graph>   one tree, long long weights (64-bit: values above 2^53)
 //        ALL <graph>   trees of all sources (built with emplace_back into a vector, as the algorithms do), double weights
 //        ALLI <graph>  same, int weights
+//        ALLL <graph>  same, long long weights
 // output: "T" then, for every vertex, " | node dist pred_edge_id parent first" ("0 - - - first" without node;
 //         the root has pred = parent = -1); ALL: "ALL" then " ; " + tree for every source.
 #include "graph.hpp"
@@ -61,8 +63,10 @@ int main() {
         if (kind == "T") run_one<DGraph>(t, out, false);
         else if (kind == "TV") run_one<DGraph>(t, out, true);
         else if (kind == "I") run_one<IGraph>(t, out, false);
+        else if (kind == "L") run_one<LGraph>(t, out, false);
         else if (kind == "ALL") run_all<DGraph>(t, out);
         else if (kind == "ALLI") run_all<IGraph>(t, out);
+        else if (kind == "ALLL") run_all<LGraph>(t, out);
         else throw std::runtime_error("c12: bad kind " + kind);
     });
 }
